@@ -166,6 +166,7 @@ pub const FOREIGN: [char; 48] = ['#', '$', 'x', 'Z', '~', '\u{0}', 'é', 'λ', '
 pub fn abstract_event(v: &Vocab, ev: &str) -> serde_json::Value {
     use serde_json::json;
     if let Some(n) = ev.strip_prefix('G') { return json!(["G", n.parse::<u64>().unwrap_or(99)]); }
+    if let Some(n) = ev.strip_prefix('L') { if let Ok(k) = n.parse::<u64>() { return json!(["L", k]); } }
     let t = ev.strip_prefix('T').unwrap_or(ev);
     let kind: String = match t {
         "Add" => "add".into(), "Subtract" => "sub".into(), "Multiply" => "mul".into(), "Divide" => "div".into(), "Caret" => "pow".into(),
